@@ -121,7 +121,7 @@ def run(args, rep):
                ('shared:names:2', 'total = 5\ndef alpha(total_value):\n    value = total_value * total\n    return value\nprint(alpha(2))\n'),
                ('shared:nums', 'x = 1 + 1.0\ny = [1, 1.0, True, 0, 0.0, False]\nz = 60 * 60\n'),
                ('shared:nums2', 'x = 1.0 + 1\ny = [True, 1.0, 1]\nz = 60 * 60 * 1.0\n')]
-    versions = ['3.12', '3.11'] if args.tier == 'quick' else [v for v in ('3.12', '3.11', '3.13', '3.8', '3.6', '2.7') if v in available_versions()]
+    versions = ['3.12', '3.11', '2.7'] if args.tier == 'quick' else [v for v in ('3.12', '3.11', '3.13', '3.8', '3.6', '2.7') if v in available_versions()]
     versions = [v for v in versions if v in available_versions()]
     for v in versions:
         if v != '3.12':
